@@ -103,9 +103,48 @@ theorem nl_le_final (j : Nat) : nl R j ≤ Y.lines.size := by
     · rw [Array.getElem?_eq_none h] at hb; cases hb
   omega
 
-/-- the final table around token `i`: lines up to the token's line start at or before it, the next line after it -/
-theorem final_around (i : Nat) :
-    (∀ m a, m ≤ nl R i - 1 → Y.lines[m]? = some a → a.startIdx ≤ (R.tk i).startIdx) ∧
+/-- the final table around a position on line `K`, seen from the table known after token `j` -/
+theorem known_line {j K : Nat} (hK : K < nl R j) (c : Nat)
+    (f1 : ∀ m a, m ≤ K → Y.lines[m]? = some a → a.startIdx ≤ c) (f2 : ∀ b, Y.lines[K + 1]? = some b → c < b.startIdx) :
+    ∀ h, h ≤ K → findLineIdx (R.st (j + 1)).lines c h = K ∧ findLineIdx Y.lines c h = K := by
+  have hfin := nl_le_final R j
+  intro h hh
+  constructor
+  · apply findLineIdx_on_line _ c K h (by unfold nl at hK; exact hK) ?_ ?_ hh
+    · intro m a hm ha
+      obtain ⟨a', b', ha', hb', he, _⟩ := start_known R (j := j) (m := m) (by omega)
+      rw [ha'] at ha; cases ha
+      have := f1 m b' hm hb'
+      omega
+    · intro b hb
+      have hlt : K + 1 < nl R j := by
+        rcases Nat.lt_or_ge (K + 1) (nl R j) with h | h
+        · exact h
+        · rw [Array.getElem?_eq_none (by unfold nl at h; exact h)] at hb; cases hb
+      obtain ⟨a', b', ha', hb', he, _⟩ := start_known R (j := j) (m := K + 1) hlt
+      rw [ha'] at hb; cases hb
+      have := f2 b' hb'
+      omega
+  · exact findLineIdx_on_line _ c K h (by omega) f1 f2 hh
+
+/-- the final table around the start of token `i` -/
+theorem start_around (i : Nat) :
+    (∀ m a, m ≤ R.sline i → Y.lines[m]? = some a → a.startIdx ≤ (R.tk i).startIdx) ∧
+    (∀ b, Y.lines[R.sline i + 1]? = some b → (R.tk i).startIdx < b.startIdx) := by
+  have hlt : R.sline i < nl R i := R.sline_lt i
+  obtain ⟨a0, b0, _, hb0, _⟩ := start_known R (j := i) (m := R.sline i) hlt
+  have hon := R.onStart i b0 hb0
+  constructor
+  · intro m a hm ha
+    by_cases hmk : m = R.sline i
+    · subst hmk; rw [hb0] at ha; cases ha; exact hon
+    · have := R.sorted m (R.sline i) a b0 (by omega) ha hb0
+      omega
+  · exact R.beforeNextStart i
+
+/-- the final table around the end of token `i` -/
+theorem end_around (i : Nat) :
+    (∀ m a, m ≤ nl R i - 1 → Y.lines[m]? = some a → a.startIdx ≤ (R.tk i).endIdx) ∧
     (∀ b, Y.lines[nl R i - 1 + 1]? = some b → (R.tk i).endIdx < b.startIdx) := by
   have hp := nl_pos R i
   obtain ⟨a0, b0, _, hb0, _⟩ := start_known R (j := i) (m := nl R i - 1) (by omega)
@@ -121,41 +160,27 @@ theorem final_around (i : Nat) :
     rw [e] at hb
     exact R.beforeNext i b hb
 
-/-- the table known after token `j` around an earlier (or the same) token `i` -/
-theorem known_around {i j : Nat} (hij : i ≤ j) (c : Nat) (hc1 : (R.tk i).startIdx ≤ c) (hc2 : c ≤ (R.tk i).endIdx) :
-    findLineIdx (R.st (j + 1)).lines c 0 = nl R i - 1 ∧ findLineIdx Y.lines c 0 = nl R i - 1 ∧
-    (∀ h, h ≤ nl R i - 1 → findLineIdx (R.st (j + 1)).lines c h = nl R i - 1 ∧ findLineIdx Y.lines c h = nl R i - 1) := by
+/-- the start of an earlier (or the same) token `i`, on the table known after token `j` and on the final one -/
+theorem known_start {i j : Nat} (hij : i ≤ j) :
+    ∀ h, h ≤ R.sline i → findLineIdx (R.st (j + 1)).lines (R.tk i).startIdx h = R.sline i ∧
+      findLineIdx Y.lines (R.tk i).startIdx h = R.sline i := by
+  obtain ⟨f1, f2⟩ := start_around R i
+  exact known_line R (Nat.lt_of_lt_of_le (R.sline_lt i) (nl_mono R hij)) _ f1 f2
+
+theorem known_end {i j : Nat} (hij : i ≤ j) :
+    ∀ h, h ≤ nl R i - 1 → findLineIdx (R.st (j + 1)).lines (R.tk i).endIdx h = nl R i - 1 ∧
+      findLineIdx Y.lines (R.tk i).endIdx h = nl R i - 1 := by
+  obtain ⟨f1, f2⟩ := end_around R i
   have hp := nl_pos R i
-  have hmono := nl_mono R hij
-  have hfin := nl_le_final R j
-  obtain ⟨f1, f2⟩ := final_around R i
-  have hreal : ∀ h, h ≤ nl R i - 1 → findLineIdx (R.st (j + 1)).lines c h = nl R i - 1 := by
-    intro h hh
-    apply findLineIdx_on_line _ c (nl R i - 1) h (by unfold nl at *; omega) ?_ ?_ hh
-    · intro m a hm ha
-      obtain ⟨a', b', ha', hb', he, _⟩ := start_known R (j := j) (m := m) (by omega)
-      rw [ha'] at ha; cases ha
-      have := f1 m b' hm hb'
-      omega
-    · intro b hb
-      have hlt : nl R i - 1 + 1 < nl R j := by
-        rcases Nat.lt_or_ge (nl R i - 1 + 1) (nl R j) with h | h
-        · exact h
-        · rw [Array.getElem?_eq_none (by unfold nl at h; exact h)] at hb; cases hb
-      obtain ⟨a', b', ha', hb', he, _⟩ := start_known R (j := j) (m := nl R i - 1 + 1) hlt
-      rw [ha'] at hb; cases hb
-      have := f2 b' hb'
-      omega
-  have hfinal : ∀ h, h ≤ nl R i - 1 → findLineIdx Y.lines c h = nl R i - 1 := by
-    intro h hh
-    apply findLineIdx_on_line _ c (nl R i - 1) h (by omega) ?_ ?_ hh
-    · intro m a hm ha
-      have := f1 m a hm ha
-      omega
-    · intro b hb
-      have := f2 b hb
-      omega
-  exact ⟨hreal 0 (Nat.zero_le _), hfinal 0 (Nat.zero_le _), fun h hh => ⟨hreal h hh, hfinal h hh⟩⟩
+  exact known_line R (by have := nl_mono R hij; omega) _ f1 f2
+
+/-- a token starts at or after the last line known before it -/
+theorem sline_ge' {i j : Nat} (hij : j < i) : nl R j - 1 ≤ R.sline i := by
+  obtain ⟨i', rfl⟩ : ∃ i', i = i' + 1 := ⟨i - 1, by omega⟩
+  have h1 := R.sline_ge i'
+  have h2 := nl_mono R (show j ≤ i' by omega)
+  unfold nl at h2 ⊢
+  omega
 
 /-- the tokens not yet handed out -/
 def rest (j : Nat) : List Token := (List.range' j (R.N - j)).map R.tk
@@ -386,7 +411,7 @@ variable {Y : Layout} {R : Run Y} {j : Nat} {s : S1}
 theorem S_lineOf {tk : Token} (h : PastTok R j tk) : Sim R j s (lineOf realOps tk) (lineOf (layoutOps Y) tk) Any := by
   intro hok
   obtain ⟨i, hi, rfl⟩ := h
-  obtain ⟨h1, h2, _⟩ := known_around R hi (R.tk i).startIdx (Nat.le_refl _) (R.span i)
+  obtain ⟨h1, h2⟩ := known_start R hi 0 (Nat.zero_le _)
   show Out R j Any (Res.ok (findLineIdx s.lex.lines (R.tk i).startIdx 0) s)
     (Res.ok (findLineIdx Y.lines (R.tk i).startIdx 0) (toL s (rest R (j + 1))))
   rw [hok.lex, h1, h2]
@@ -454,17 +479,17 @@ theorem S_next (m : Nat) : Sim R j s (next realOps m) (next (layoutOps Y) m) Any
     have hmono := nl_mono R (show j ≤ i' by omega)
     have hs2 := hok.sl2
     have he2 := hok.el2
-    obtain ⟨_, _, hst⟩ := known_around R (Nat.le_refl i') (R.tk i').startIdx (Nat.le_refl _) (R.span i')
-    obtain ⟨_, _, hen⟩ := known_around R (Nat.le_refl i') (R.tk i').endIdx (R.span i') (Nat.le_refl _)
     have hp := nl_pos R i'
-    obtain ⟨hs_r, hs_l⟩ := hst s.sl2 (by omega)
-    obtain ⟨he_r, he_l⟩ := hen s.el2 (by omega)
+    have hge := sline_ge' R (show j < i' by omega)
+    have hslt := R.sline_lt i'
+    obtain ⟨hs_r, hs_l⟩ := known_start R (Nat.le_refl i') s.sl2 (by omega)
+    obtain ⟨he_r, he_l⟩ := known_end R (Nat.le_refl i') s.el2 (by omega)
     show Out R j Any (Res.ok () _) (Res.ok () _)
     refine ⟨rfl, i', by omega, ⟨rfl, ?_, ?_, ?_, ⟨i', Nat.le_refl _, rfl⟩⟩, ?_, trivial⟩
     · show s.sl2 < nl R i'; omega
     · show findLineIdx (realOps.lines (R.st (i' + 1))) (R.tk i').startIdx s.sl2 < nl R i'
       show findLineIdx (R.st (i' + 1)).lines (R.tk i').startIdx s.sl2 < nl R i'
-      rw [hs_r]; omega
+      rw [hs_r]; exact hslt
     · show findLineIdx (R.st (i' + 1)).lines (R.tk i').endIdx s.el2 < nl R i'
       rw [he_r]; omega
     · show _ = toL _ _
